@@ -142,6 +142,10 @@ theorem run_append (fin0 : Nat) : ∀ (a b : List Item) (ms : MS),
     | none => rfl
     | some ms1 => simp only [Option.bind_some]; exact run_append fin0 a b ms1
 
+theorem run_trans {fin0 : Nat} {a b c : MS} {s1 s2 : List Item} (h1 : run fin0 a s1 = some b)
+    (h2 : run fin0 b s2 = some c) : run fin0 a (s1 ++ s2) = some c := by
+  rw [run_append, h1]; exact h2
+
 def accM (fin0 : Nat) : Acc MS :=
   ⟨fun ms seg ms' => run fin0 ms seg = some ms', fun _ => rfl,
     fun {a b c s1 s2} h1 h2 => by rw [run_append, h1]; exact h2⟩
@@ -785,6 +789,99 @@ theorem nested_err (fin0 d : Nat) (below0 : List Q) (x : Ctx) (f : Bool) (σ : Q
   · rw [hq4]; exact hhead
   · rw [hq4]; exact hrel
   · rw [hq4]; exact hlow
+
+/-- an awaited trigger issued by a callback of the event `x`, for any interpreter `sub` of the triggers awaited
+inside the nested session it may open -/
+theorem apiTrigger_sub (fin0 : Nat) (sc : Script) (kd : Async.Kinds) (cfg : Cfg) (qmax : Nat) (rest : List Nat)
+    (hfin : cfg.finalize = fin0 :: rest) (hnot : fin0 ∉ rest) (sub : Sub) (hsub : MSubOK fin0 sub)
+    (d : Nat) (below0 : List Q) (x : Ctx) (f : Bool) (m ev : Nat) (ms : MS) (s : St) (hs : SynM d below0 x f ms s) :
+    APost (accM fin0) (SynM d below0 x f) (SynM d below0 x f) ms s.log
+      (Async.apiTrigger sub sc kd cfg 2 qmax m ev s) := by
+  obtain ⟨hp, σ, below, hst, hT⟩ := hs
+  let s1 : St := ({ s with nextTag := s.nextTag + 1 }).emit (.api 0 s.nextTag m ev)
+  have hs1 : SynT d below0 x f σ below s1 := ⟨hT.owner, hT.head, hT.tags.bump s1 rfl rfl, hT.rel, hT.fin, hT.low⟩
+  have refuse_exc : ∀ e, APost (accM fin0) (SynM d below0 x f) (SynM d below0 x f) ms s.log
+      (.err e (s1.emit (.raised s.nextTag e)) : R Bool) := fun e =>
+    ⟨{ stack := ms.stack }, [.api 0 s.nextTag m ev, .raised s.nextTag e], by simp [St.emit, s1],
+      adv_refused_exc fin0 ms _ _ _ _ hp, rfl, σ, below, hst, hs1.frame rfl rfl⟩
+  have refuse : APost (accM fin0) (SynM d below0 x f) (SynM d below0 x f) ms s.log
+      (.ok false (s1.emit (.ret s.nextTag false)) : R Bool) :=
+    ⟨{ stack := ms.stack }, [.api 0 s.nextTag m ev, .ret s.nextTag false], by simp [St.emit, s1],
+      adv_refused fin0 ms _ _ _ hp, rfl, σ, below, hst, hs1.frame rfl rfl⟩
+  unfold Async.apiTrigger
+  show APost _ _ _ ms s.log (match Async.triggerByName sub sc kd cfg 2 qmax m ev s.nextTag s1 with
+    | .ok b s' => .ok b (s'.emit (.ret s.nextTag b))
+    | .err e s' => .err e (s'.emit (.raised s.nextTag e))
+    | .oof => .oof)
+  unfold Async.triggerByName
+  by_cases hmod : (alookup m s1.mstate).isNone = true
+  · simp only [hmod, if_true]; exact refuse_exc _
+  · simp only [hmod]
+    cases hev : cfg.event? ev with
+    | none =>
+      simp only [Bool.false_eq_true, if_false]
+      cases cfg.state? (s1.stateOf m) with
+      | none => exact refuse_exc _
+      | some _ =>
+        by_cases hig : ignoreInvalid cfg (s1.stateOf m) = true
+        · simp only [hig, if_true]; exact refuse
+        · simp only [hig]; exact refuse_exc _
+    | some ts =>
+      let s2 : St := { s1 with queue := s1.queue ++ [(m, ev, s.nextTag)] }
+      have hmp : Async.machineProcess sub sc kd cfg 2 qmax m ev s.nextTag s1 =
+          if (Async.qOf 2 m (s.queue ++ [(m, ev, s.nextTag)])).length > 1 then .ok true s2
+          else (Async.drain sub sc kd cfg 2 m qmax s2).bind fun _ s' => .ok true s' := rfl
+      simp only [Bool.false_eq_true, if_false, hmp]
+      by_cases hbusy : qv m s.queue = []
+      · -- no session for `m`: a nested session
+        have hlen : ¬ (Async.qOf 2 m (s.queue ++ [(m, ev, s.nextTag)])).length > 1 := by
+          rw [qOf_len]; exact fun h => h hbusy
+        simp only [hlen, if_false]
+        obtain ⟨ms1, a1, hpre⟩ := nested_pre fin0 d below0 x f σ below ms s m ev hp hst hT hbusy s2 rfl rfl
+        have hd := adrainM_post fin0 sc kd cfg sub hsub rest hfin hnot s.nextTag (σ :: below) m qmax ms1 s2 hpre
+        cases hr : Async.drain sub sc kd cfg 2 m qmax s2 with
+        | oof => trivial
+        | ok u s3 =>
+          rw [hr] at hd
+          obtain ⟨ms3, seg, l3, a3, hd3⟩ := hd
+          obtain ⟨ms', a4, h4⟩ := nested_ok fin0 d below0 x f σ below s hT s.nextTag m ms3 s3
+            (s3.emit (.ret s.nextTag true)) hd3 rfl rfl
+          exact ⟨ms', [.api 0 s.nextTag m ev] ++ seg ++ [.ret s.nextTag true], by simp [St.emit, l3, s2, s1],
+            run_trans (run_trans a1 a3) a4, h4⟩
+        | err e s3 =>
+          rw [hr] at hd
+          obtain ⟨ms3, seg, l3, a3, hd3⟩ := hd
+          obtain ⟨ms', a4, h4⟩ := nested_err fin0 d below0 x f σ below s hT s.nextTag m e ms3 s3
+            (s3.emit (.raised s.nextTag e)) hd3 rfl rfl
+          exact ⟨ms', [.api 0 s.nextTag m ev] ++ seg ++ [.raised s.nextTag e], by simp [St.emit, l3, s2, s1],
+            run_trans (run_trans a1 a3) a4, h4⟩
+      · -- the model has a session: deferred
+        have hlen : (Async.qOf 2 m (s.queue ++ [(m, ev, s.nextTag)])).length > 1 := by
+          rw [qOf_len]; exact hbusy
+        simp only [hlen, if_true]
+        obtain ⟨ms', a1, h1⟩ := deferred_syn fin0 d below0 x f σ below ms s m ev hp hst hT hbusy
+          (s2.emit (.ret s.nextTag true)) rfl rfl
+        exact ⟨ms', [.api 0 s.nextTag m ev, .ret s.nextTag true], by simp [St.emit, s2, s1], a1, h1⟩
+
+/-- **the interpreter of awaited triggers keeps the stack of sessions in step**, at every fuel level (induction on
+the fuel: a nested session runs the interpreter one level down) -/
+theorem msubOK_runCmd (fin0 : Nat) (sc : Script) (kd : Async.Kinds) (cfg : Cfg) (qmax : Nat) (rest : List Nat)
+    (hfin : cfg.finalize = fin0 :: rest) (hnot : fin0 ∉ rest) :
+    ∀ n, MSubOK fin0 (Async.runCmd sc kd cfg 2 qmax n) := by
+  intro n
+  induction n with
+  | zero => intro d below0 x f c ms s _; trivial
+  | succ n ih =>
+    intro d below0 x f c ms s hs
+    cases c with
+    | trigger m ev =>
+      show APost _ _ _ ms s.log
+        ((Async.apiTrigger (Async.runCmd sc kd cfg 2 qmax n) sc kd cfg 2 qmax m ev s).map fun _ => ())
+      exact APost.map _ (apiTrigger_sub fin0 sc kd cfg qmax rest hfin hnot _ ih d below0 x f m ev ms s hs)
+    | removeModel _ => trivial
+    | addModel _ => trivial
+    | dispatch _ => trivial
+    | may _ _ => trivial
 
 end M5
 end TM
